@@ -12,7 +12,7 @@ use serde_json::{json, Value as J};
 const SYMS: &[&str] = &[".", "/", "-", "'", "+", "*"];
 
 fn real(word: &str) -> String {
-  word.replace("Zolc", "żółć")
+  word.replace("Zolc", "żółć").replace("Eur", "\u{20AC}").replace("Nro", "\u{2116}").replace("Zwj", "a\u{200D}c").replace("Emo", "\u{1F600}")
 }
 
 /// Lays parts out: 0 = one space everywhere, 1 = no space around symbols, 2 = a space before symbols only.
